@@ -348,7 +348,11 @@ class PageRenderer:
                             )
                             elements.extend(spanning)
 
-                    # Update state
+                    # Update state; a level whose value is filtered out of this
+                    # row (a divider) no longer counts as showing its old value
+                    for col_name in page_by_cols:
+                        if col_name not in new_values:
+                            last_values.pop(col_name, None)
                     last_values.update(new_values)
 
                 prev_row = page_rel_row
